@@ -96,3 +96,37 @@ def shrink_tree(t):
         for c2 in shrink_tree(c):
             out.append(t[:3] + ks[:i] + [c2] + ks[i + 1:])
     return out
+
+
+# ------------------------------------------------------------------------------------------------ histories
+def hist_times(rng, dur, half, n=1):
+    """times on a half-unit grid in [0, dur], some one tick off"""
+    out = []
+    for _ in range(n):
+        x = rng.randint(0, max(0, dur // half)) * half + rng.choice([0, 0, 0, 1, -1])
+        out.append(max(0, x))
+    return out
+
+
+def hist_compare(case, mo, io):
+    """(hist t op...) -> (hist (ok tree) ... [(err kind)]): compared step by step"""
+    if len(mo) != len(io):
+        return f"history: model answers {len(mo) - 1} steps, implementation {len(io) - 1}"
+    for k, (a, b) in enumerate(zip(mo[1:], io[1:])):
+        d = compare_result(a, b)
+        if d:
+            return f"step {k} {sx.show(case[2 + k])[:80]}: {d}"
+    return None
+
+
+def hist_oracle(single, case, io):
+    """every step is judged like a single call on the state the implementation itself left behind"""
+    prev = case[1]
+    for k, (op, step) in enumerate(zip(case[2:], io[1:])):
+        m = single(["op", prev, op], step, None)
+        if m:
+            return f"step {k} on the state left by the earlier calls {sx.show(prev)[:160]}: {m}"
+        if is_err(step):
+            break
+        prev = step[1]
+    return None
